@@ -351,6 +351,11 @@ func (c *Ctx) PART(rule string) []report.Obligation {
 						}
 					}
 					notSelected := factHolds(app.Block(), func(cond ssa.Value, val bool) bool {
+						if call, isCall := cond.(*ssa.Call); isCall {
+							// the membership test of the set type: !selected.Has(name)
+							cal := call.Call.StaticCallee()
+							return cal != nil && c.P.RefName(cal) == "Has" && !val && len(call.Call.Args) == 2 && l.isIterKey(call.Call.Args[1])
+						}
 						ex, ok := cond.(*ssa.Extract)
 						if !ok || ex.Index != 1 || val {
 							return false
